@@ -239,6 +239,165 @@ class W1Universe(Universe):
         return wrap(corpus()[rank // len(W1_WRAPS)], *w)
 
 
+class Z1Universe(Universe):
+    """The suite's own documents exactly as they are (the scan / fix properties judge aspects of them the suite's
+    expected outputs do not: meaning preservation, convergence, pragmas, independence, entry points)."""
+
+    name = "Z1"
+
+    def __init__(self):
+        self.size = len(corpus())
+
+    def doc(self, rank):
+        return corpus()[rank]
+
+
+# ---------------------------------------------------------------------------- lexical-form matrices (second generation of L1)
+class ProductUniverse(Universe):
+    """Full product of named axes; render(values...) -> document.  Axis order is part of the rank encoding (frozen)."""
+
+    def __init__(self, name, axes, render):
+        self.name = name
+        self.axes = axes
+        self.render = render
+        self.size = 1
+        for a in axes:
+            self.size *= len(a)
+
+    def doc(self, rank):
+        vals = []
+        for a in self.axes:
+            vals.append(a[rank % len(a)])
+            rank //= len(a)
+        return self.render(*vals)
+
+
+L2_DEST = [
+    "/u", "", "<>", "<a b>", "/u%", "/u%4", "/u%41", "/u%zz", "/u%4z", "%", "%f", "/u%20x", "a%C3%A9", "/u\\)", "/u(", "/u(a)", "/u((a))", "/u(a", "/u)a",
+    "&amp;", "/u&auml;", "/u&", "/u&#35;", "/u&#x2;", "\\&amp;", "/u\\\\", "/u\\", "/u#f", "#", "?q=1&r=2", '/u"q', "/u'q", "a:b", "http://a.b/c?d=e#f",
+    "/u\tv", "/u v", " /u ", "\n/u", "/u*e*", "/u_e_", "/u`c`", "/u<b>", "/u[l]", "/u]", "<a\\>b>", "<a<b>", "</u", "/%41%zz%4",
+]
+L2_TITLE = ["", ' "t"', " 't'", " (t)", ' "t\\"q"', ' "t&amp;%41"', ' "multi\nline"', ' "t" x', ' "unclosed', '  "t"  ', ' ""', ' "t\\\nx"', " ('n')", '"t"', "\n'next line'", ' "a\n\nb"']
+L2_KIND = ["link", "image", "lrd", "lrd-then-text", "angle"]
+L2_HOST = [("", ""), ("> ", "> "), ("- ", "  "), ("# ", None)]
+
+
+def _l2(dest, title, kind, host):
+    first, cont = host
+    if kind == "link":
+        body = f"a [t]({dest}{title}) b"
+    elif kind == "image":
+        body = f"a ![t]({dest}{title}) b"
+    elif kind == "angle":
+        body = f"[t](<{dest}>{title})"
+    elif kind == "lrd":
+        body = f"[l]: {dest}{title}\n\n[l]"
+    else:
+        body = f"[l]: {dest}{title}\ntext [l]"
+    if cont is None:  # heading host: single line only
+        body = body.replace("\n", " ")
+        return first + body + "\n"
+    return wrap(body + "\n", first, cont) if first else body + "\n"
+
+
+L3_OPEN = [
+    "<script>", "<script>x</script>", "<pre>", "<style\n>", "<!-- c", "<!-- c -->", "<?php", "<?php ?>", "<!DOCTYPE x>", "<!x", "<![CDATA[", "<![CDATA[x]]>",
+    "<div>", "<div", "</div>", "<DIV class=\"a\">", "<p>", "<table><tr>", "<h1>t</h1>", "<details>", "<a href=\"x\">", "</a>", "<custom-tag a='b' c=d e>", "<a href=\"x>",
+    "<33>", "<a  b=>", "<br/>", "<i>", "<del>*x*</del>", "< div>", "<div/>", "<x-y z>",
+]
+L3_FOLLOW = ["", " tail", "\n", "\ntext", "\n\ntext", "\n*e*\n</div>", "\n-->", "\n?>\nafter", "\n]]>", "\n</script>\nafter", "\n    indented", "\n> q"]
+L3_BEFORE = ["", "para\n", "para\n\n", "- item\n", "# h\n"]
+L3_HOST = [("", ""), ("> ", "> "), ("- ", "  "), ("   ", "   "), ("1. ", "   ")]
+
+
+def _l3(op, follow, before, host):
+    body = before + op + follow + "\n"
+    return wrap(body, *host) if host[0] else body
+
+
+L4_FENCE = ["```", "````", "~~~", "~~~~~", "``", "`````"]
+L4_IND = ["", " ", "   ", "    "]
+L4_INFO = ["", "py", " py extra ", "a`b", "~x", "\\*x", "&amp;", "py\t", "{.c #i}", "*e*"]
+L4_BODY = ["", "x", " ", "\n", "  x\n\ty", "```", "~~~", "````\nx", "> q\n- l", "    deep\n"]
+L4_CLOSE = ["same", "longer", "shorter", "ind1", "ind3", "ind4", "trail", "other", "none", "same+after"]
+L4_HOST = [("", ""), ("> ", "> "), ("- ", "  "), ("1. ", "   "), ("> - ", ">   ")]
+
+
+def _l4(fence, ind, info, body, close, host):
+    ch = fence[0]
+    lines = [ind + fence + info]
+    if body != "":
+        lines += body.split("\n")
+    c = {"same": fence, "longer": fence + ch, "shorter": fence[:-1], "ind1": " " + fence, "ind3": "   " + fence, "ind4": "    " + fence,
+         "trail": fence + " x", "other": ("~" if ch == "`" else "`") * len(fence), "none": None, "same+after": fence}[close]
+    if c is not None:
+        lines.append(c)
+    if close == "same+after":
+        lines.append("after")
+    body = "\n".join(lines) + "\n"
+    return wrap(body, *host) if host[0] else body
+
+
+L5_MARK = ["-", "*", "+", "1.", "1)", "0.", "007.", "123456789.", "1234567890."]
+L5_GAP = [" ", "  ", "   ", "    ", "     ", "\t", ""]
+L5_FIRST = ["a", "", "# h", "```\nc\n```", "> q", "    code", "- n", "---", "[l]: /u", "<div>"]
+L5_SECOND = ["none", "cont-1", "cont", "cont+1", "cont+4", "lazy", "blank-cont", "blank-cont+4", "blank-lazy", "same", "other", "next", "blank-same", "2blank-same", "cont-# h", "sub", "sub-1"]
+L5_HOST = [("", ""), ("> ", "> "), ("  ", "  ")]
+
+
+def _l5(mark, gap, first, second, host):
+    w = len(mark) + (len(gap) if gap not in ("", "\t") else 1)
+    if len(gap) > 4 and gap != "\t":
+        w = len(mark) + 1
+    flines = first.split("\n")
+    lines = [mark + gap + flines[0]] + [" " * w + x for x in flines[1:]]
+    other = {"-": "*", "*": "+", "+": "-"}.get(mark, mark[:-1] + (")" if mark.endswith(".") else "."))
+    nxt = mark
+    if mark[0].isdigit():
+        nxt = str(int(mark[:-1]) + 1) + mark[-1]
+    add = {
+        "none": [], "cont-1": [" " * max(w - 1, 0) + "b"], "cont": [" " * w + "b"], "cont+1": [" " * (w + 1) + "b"], "cont+4": [" " * (w + 4) + "b"],
+        "lazy": ["b"], "blank-cont": ["", " " * w + "b"], "blank-cont+4": ["", " " * (w + 4) + "b"], "blank-lazy": ["", "b"], "same": [mark + " b"],
+        "other": [other + " b"], "next": [nxt + " b"], "blank-same": ["", mark + " b"], "2blank-same": ["", "", mark + " b"], "cont-# h": [" " * w + "# h"],
+        "sub": [" " * w + "- s"], "sub-1": [" " * max(w - 1, 0) + "- s"],
+    }[second]
+    body = "\n".join(lines + add) + "\n"
+    return wrap(body, *host) if host[0] else body
+
+
+# ---------------------------------------------------------------------------- character-level neighbourhood
+E1_INSERTS = [" ", "\n", "\t", ">", "-", "*", "_", "`", "[", "]", "\\", "#", "<", "&", "1."]
+
+
+class E1Universe(Universe):
+    """Single-character edit neighbourhood of the suite's own documents: at every character position, delete the
+    character, or insert one Markdown-significant character before it (and at the end of the document)."""
+
+    name = "E1"
+
+    def __init__(self):
+        import bisect
+
+        self._bisect = bisect.bisect_right
+        self.k = len(E1_INSERTS)
+        self.cum = [0]
+        for s in corpus():
+            n = len(s)
+            self.cum.append(self.cum[-1] + n + (n + 1) * self.k)
+        self.size = self.cum[-1]
+
+    def doc(self, rank):
+        di = self._bisect(self.cum, rank) - 1
+        s = corpus()[di]
+        r = rank - self.cum[di]
+        n = len(s)
+        if r < n:
+            return s[:r] + s[r + 1:]
+        r -= n
+        pos, which = divmod(r, self.k)
+        return s[:pos] + E1_INSERTS[which] + s[pos:]
+
+
 # ---------------------------------------------------------------------------- structured
 S_CONTAINERS = {
     "q": ("> ", "> "),
@@ -616,6 +775,12 @@ def _build():
         "K7": lambda: InlineUniverse("K7", K7_FRAGS, 7, [I4_HOSTS[0]]),
         "R2": lambda: LinesUniverse("R2", R2_PRE, [m + e for m in R2_MID for e in R2_END], 2),
         "L1": L1Universe,
+        "L2": lambda: ProductUniverse("L2", [L2_HOST, L2_KIND, L2_TITLE, L2_DEST], lambda h, k, t, d: _l2(d, t, k, h)),
+        "L3": lambda: ProductUniverse("L3", [L3_HOST, L3_BEFORE, L3_FOLLOW, L3_OPEN], lambda h, b, f, o: _l3(o, f, b, h)),
+        "L4": lambda: ProductUniverse("L4", [L4_HOST, L4_CLOSE, L4_BODY, L4_INFO, L4_IND, L4_FENCE], lambda h, c, b, i, n, f: _l4(f, n, i, b, c, h)),
+        "L5": lambda: ProductUniverse("L5", [L5_HOST, L5_SECOND, L5_FIRST, L5_GAP, L5_MARK], lambda h, s2, f, g, m: _l5(m, g, f, s2, h)),
+        "E1": E1Universe,
+        "Z1": Z1Universe,
     }
 
 
@@ -625,7 +790,7 @@ def get(name):
     return _REGISTRY[name]
 
 
-ALL = ["B2", "B3", "B4", "I4", "I6", "N1", "W1", "S2", "S3", "U1", "X2", "H4", "M5", "L1", "P2", "R2", "R3", "K7", "T4"]
+ALL = ["B2", "B3", "B4", "I4", "I6", "N1", "W1", "S2", "S3", "U1", "X2", "H4", "M5", "L1", "P2", "R2", "R3", "K7", "T4", "E1", "L2", "L3", "L4", "L5"]
 
 if __name__ == "__main__":
     tot = 0
